@@ -33,7 +33,8 @@ def FLOORS(tier):
     q = tier == "quick"
     f = {"immutability-checks": 20000 if q else 10 ** 6, "monitored-entry-points-hit": 70, "round-trips": 300 if q else 10000,
          "aliasing-probes": 2500 if q else 10 ** 5, "round-trip:with-constraints": 40, "round-trip:permuted-mapping": 40,
-         "round-trip:stale-mapping": 40, "round-trip:named": 60}
+         "round-trip:stale-mapping": 40, "round-trip:named": 60, "round-trip:falsy-name": 25,
+         "zero-entry-dict-calls": 100, "retained:add_constraint_eq_zero": 30, "retained-arg:PUBO": 15, "retained-arg:dict": 15}
     for u in UNDER:
         f["under:" + u] = 30 if q else 1000
     for t in TYPES:
@@ -166,10 +167,14 @@ def finish(ctx):
 # ---- cases ----------------------------------------------------------------------------------------------------------------
 def case(ctx, rng, idx):
     r = rng.random()
-    if r < 0.3:
+    if r < 0.27:
         round_trip(ctx, rng)
-    elif r < 0.55:
+    elif r < 0.47:
         aliasing(ctx, rng)
+    elif r < 0.55:
+        retained_arguments(ctx, rng)
+    elif r < 0.63:
+        zero_entry_dicts(ctx, rng)
     else:
         u = rng.choice(UNDER)
         ctx.cat("under:" + u)
@@ -198,8 +203,10 @@ def rand_model(rng):
         m[k] += v
     feats = []
     if rng.random() < 0.4:
-        m.name = rng.choice(["obj", 7, ("n", 1)])
+        m.name = rng.choice(["obj", 7, ("n", 1), 0, "", False, 0.0])      # boolean_var(0) is named 0
         feats.append("named")
+        if not m.name:
+            feats.append("falsy-name")
     if tn in ("PCBO", "PCSO") and rng.random() < 0.7:
         for _ in range(rng.randint(1, 3)):
             P = {(rng.choice(labs),): rng.choice([1, 2]), (): rng.choice([-1, 0, 1])}
@@ -274,9 +281,112 @@ def round_trip(ctx, rng):
     if public_state(m) != before:
         ctx.violation("get_info:aliases-model", "mutating the info dict changed the model", w)
         return
+    # ... nor may the model made from it keep pieces of it
+    ps = public_state(c)
+    if any(ps.get(a) != before.get(a) for a in ("terms", "name", "num_ancillas", "constraints")):
+        ctx.violation("create_from_info:aliases-info", "mutating the info dict afterwards changed the model created from it", w)
+        return
     if len(m) >= 2:
         ctx.nontrivial(("rt", tn, sorted(dict(m).items(), key=repr), feats))
     ctx.sample({"round_trip": tn, "terms": dict(m), "features": feats}, limit=2)
+
+
+def retained_arguments(ctx, rng):
+    """what a model is given stays the caller's: polynomial objects handed to add_constraint_*, operands of in-place
+    arithmetic, constructor arguments and mapping dicts are edited afterwards; the model must not follow"""
+    import warnings
+    kind = rng.choice(["bool", "spin"])
+    H = (L.PCBO if kind == "bool" else L.PCSO)()
+    labs = [x for x in gen.labels(rng, rng.randint(2, 4))]
+    for k, v in gen.rand_terms(rng, labs, 2, lo=0, hi=3).items():
+        H[k] += v
+    argT = rng.choice(["dict", "PUBO", "PCBO", "QUBO"] if kind == "bool" else ["dict", "PUSO", "PCSO", "QUSO", "PUBO"])
+    terms = {k: v for k, v in gen.rand_terms(rng, labs, 1, coefs=[-2, -1, 1, 2, 3], lo=1, hi=3).items()}
+    terms[()] = terms.get((), 0) + rng.choice([-1, 1])
+    P = dict(terms) if argT == "dict" else gen.model_of(getattr(L, argT), terms)
+    how = rng.choice(["add_constraint_eq_zero", "add_constraint_eq_zero", "add_constraint_le_zero", "add_constraint_ne_zero", "iadd", "imul", "ctor", "update"])
+    w = {"class": type(H).__name__, "argument_type": argT, "argument": dict(P), "operation": how}
+    ctx.cat("retained:" + how)
+    ctx.cat("retained-arg:" + argT)
+    with warnings.catch_warnings():
+        warnings.simplefilter("ignore")
+        try:
+            if how.startswith("add_constraint"):
+                getattr(H, how)(P, lam=rng.choice([1, 2]))
+            elif how == "iadd":
+                H += P
+            elif how == "imul":
+                H *= P
+            elif how == "update":
+                H.update(P)
+            else:
+                H = type(H)(P)
+        except Exception as e:   # noqa
+            ctx.violation("retained:%s:raises-%s" % (how, type(e).__name__), "%r" % (e,), w)
+            return
+    before = public_state(H)
+    info = L.utils.get_info(H)
+    info_snap = snap(info)
+    # the caller goes on using its polynomial
+    core.scribble(P)
+    P[()] = 777
+    for k in list(P)[:2]:
+        P[k] = -9
+    ctx.count("aliasing-probes", 2)
+    if public_state(H) != before:
+        ctx.violation("%s:model-keeps-the-callers-object" % how, "editing the %s handed to %s changed the model: %r -> %r" % (
+            argT, how, {k: before[k] for k in ("terms", "constraints") if k in before}, {k: public_state(H).get(k) for k in ("terms", "constraints")}), w)
+        return
+    if snap(info) != info_snap:
+        ctx.violation("%s:info-keeps-the-callers-object" % how, "editing the %s handed to %s changed an info dict taken earlier" % (argT, how), w)
+        return
+    if len(before["terms"]) >= 2:
+        ctx.nontrivial(("retained", how, argT, sorted(before["terms"].items(), key=repr)))
+
+
+def zero_entry_dicts(ctx, rng):
+    """plain dicts may carry explicit zero coefficients (also a zero constant); no entry point may drop or add entries.
+    The deep-snapshot monitor on the entry points does the comparison."""
+    kind = rng.choice(["bool", "spin"])
+    d2 = rng.random() < 0.5
+    labs = gen.labels(rng, rng.randint(1, 4), matrix=rng.random() < 0.5)
+    D = {tuple(gen.sort_labels(k)): v for k, v in gen.rand_terms(rng, labs, 2 if d2 else 3, lo=1, hi=4).items()}
+    if rng.random() < 0.7:
+        D[()] = 0
+    for x in labs[:2]:
+        if rng.random() < 0.5:
+            D.setdefault((x,), 0)
+    if not any(v == 0 for v in D.values()):
+        D[()] = 0
+    snap0 = dict(D)
+    items0 = list(D.items())
+    n = {("bool", True): "qubo", ("bool", False): "pubo", ("spin", True): "quso", ("spin", False): "puso"}[(kind, d2)]
+    other = {"qubo": "quso", "quso": "qubo", "pubo": "puso", "puso": "pubo"}[n]
+    sol = {x: (rng.choice((0, 1)) if kind == "bool" else rng.choice((1, -1))) for x in labs}
+    U, S = L.utils, L.sim
+    calls = {"solve_%s_bruteforce" % n: lambda: getattr(U, "solve_%s_bruteforce" % n)(D),
+             "solve_%s_bruteforce(all_solutions)" % n: lambda: getattr(U, "solve_%s_bruteforce" % n)(D, all_solutions=True),
+             "%s_value" % n: lambda: getattr(U, "%s_value" % n)(sol, D),
+             "%s_to_%s" % (n, other): lambda: getattr(U, "%s_to_%s" % (n, other))(D),
+             "approximate_%s_extrema" % n: lambda: getattr(U, "approximate_%s_extrema" % n)(D),
+             "anneal_%s" % n: lambda: getattr(S, "anneal_%s" % n)(D, num_anneals=2, anneal_duration=5, seed=1, temperature_range=(2, 1)),
+             "subvalue": lambda: U.subvalue({labs[0]: 1}, D),
+             "subgraph": lambda: U.subgraph(D, set(labs[:1])),
+             "normalize": lambda: U.normalize(D),
+             "ctor": lambda: getattr(L, n.upper())(D)}
+    name = rng.choice(sorted(calls))
+    w = {"entry_point": name, "dict": snap0}
+    ctx.cat("zero-entry-dict:" + name.split("(")[0].replace(n, "X").replace(other, "Y"))
+    try:
+        calls[name]()
+    except Exception as e:   # noqa
+        ctx.exc["%s@%s" % (type(e).__name__, name)] += 1      # (what the call answers is other properties' business)
+    ctx.count("zero-entry-dict-calls")
+    if list(D.items()) != items0:
+        ctx.violation("argument-mutated:%s:zero-entries" % name.replace(n, "X").replace(other, "Y"), "the caller's dict changed from %r to %r" % (snap0, D), w)
+        return
+    if len(snap0) >= 2:
+        ctx.nontrivial(("zero-dict", name, sorted(snap0.items(), key=repr)))
 
 
 def aliasing(ctx, rng):
